@@ -238,56 +238,7 @@ func checkC10(c *Ctx, r *Report) {
 
 	ruleEarlyExitInventory(c, r, "C10.b", 8, "core/validators")
 	ruleNoCompaction(c, r, "C10.b", "core/validators")
-	// diagnostics are only ever added: no element of an entity's Diagnostics/Children is overwritten or removed
-	{
-		ed := w.lookupType("core/validators/diagnostics", "EntityDiagnostic")
-		viol := ""
-		var sites []string
-		n := 0
-		for _, fn := range w.SSAFuncs {
-			allInstrsLocal(fn, false, func(f *ssa.Function, _ *ssa.BasicBlock, _ int, ins ssa.Instruction) {
-				st, ok := ins.(*ssa.Store)
-				if !ok {
-					return
-				}
-				// element overwrite: *IndexAddr(load(FieldAddr(ed, Children|Diagnostics)), i) = v
-				if ia, ok := st.Addr.(*ssa.IndexAddr); ok {
-					// the container itself: d.Children[i] / d.Diagnostics[i]
-					var fvs []*types.Var
-					if ld, ok := stripTrivial(ia.X).(*ssa.UnOp); ok && ld.Op == token.MUL {
-						if fa2, ok := ld.X.(*ssa.FieldAddr); ok {
-							if v := structFieldVar(fa2.X.Type(), fa2.Field); v != nil {
-								fvs = append(fvs, v)
-							}
-						}
-					}
-					for _, fv := range fvs {
-						if own, ok2 := derefNamedOwner(fv, ed); ok2 && own && (fv.Name() == "Children" || fv.Name() == "Diagnostics") {
-							sites = append(sites, w.pos(st.Pos()))
-							viol = fmt.Sprintf("%s: %s overwrites an element of EntityDiagnostic.%s: a diagnostic (or a whole child entity with its errors) that was already recorded is replaced - e.g. a warning-only child attached later wipes the errors of the same receiver, and generation is no longer blocked", w.pos(st.Pos()), fnShort(f), fv.Name())
-						}
-					}
-				}
-				if fa, ok := st.Addr.(*ssa.FieldAddr); ok && ed != nil {
-					if fv := structFieldVar(fa.X.Type(), fa.Field); fv != nil && (fv.Name() == "Children" || fv.Name() == "Diagnostics") {
-						if own, ok2 := derefNamedOwner(fv, ed); ok2 && own {
-							n++
-							sites = append(sites, w.pos(st.Pos()))
-							// the value stored is an append to the same field, a fresh literal, or (AddDiagnostics on an empty entity) the given list
-							va := sliceOf(st.Val)
-							if !(va.Calls["builtin.append"] || len(va.Fields) == 0) {
-								viol = fmt.Sprintf("%s: %s assigns EntityDiagnostic.%s something other than itself extended", w.pos(st.Pos()), fnShort(f), fv.Name())
-							}
-						}
-					}
-				}
-			})
-		}
-		if n < 4 {
-			viol = fmt.Sprintf("only %d assignments of EntityDiagnostic.Children/Diagnostics found (floor 4)", n)
-		}
-		r.add("C10.a", "whowrites", "EntityDiagnostic:append-only", "recorded diagnostics and child entities are never replaced or dropped", []string{"core/validators/diagnostics.EntityDiagnostic"}, sites, viol)
-	}
+	checkDiagnosticsAppendOnly(c, r, "C10.a")
 	// every element filter in these packages is a reviewed one
 	ruleSkipInventory(c, r, "C10.b", loadSkipTable(c.VerifDir), 5, "core/validators")
 }
@@ -976,4 +927,57 @@ func checkVerbTestedAsWritten(c *Ctx, r *Report, clause string) {
 		}
 		r.add(clause, "fieldflow", rred+":verb-as-written", "the emitted verb is the annotation value", []string{rred}, s2, v2)
 	}
+}
+
+// checkDiagnosticsAppendOnly (C10.a / C04.d): diagnostics are only ever added - no element of an
+// entity's Diagnostics/Children is overwritten or removed.
+func checkDiagnosticsAppendOnly(c *Ctx, r *Report, clause string) {
+	w := c.W
+	ed := w.lookupType("core/validators/diagnostics", "EntityDiagnostic")
+	viol := ""
+	var sites []string
+	n := 0
+	for _, fn := range w.SSAFuncs {
+		allInstrsLocal(fn, false, func(f *ssa.Function, _ *ssa.BasicBlock, _ int, ins ssa.Instruction) {
+			st, ok := ins.(*ssa.Store)
+			if !ok {
+				return
+			}
+			// element overwrite: *IndexAddr(load(FieldAddr(ed, Children|Diagnostics)), i) = v
+			if ia, ok := st.Addr.(*ssa.IndexAddr); ok {
+				// the container itself: d.Children[i] / d.Diagnostics[i]
+				var fvs []*types.Var
+				if ld, ok := stripTrivial(ia.X).(*ssa.UnOp); ok && ld.Op == token.MUL {
+					if fa2, ok := ld.X.(*ssa.FieldAddr); ok {
+						if v := structFieldVar(fa2.X.Type(), fa2.Field); v != nil {
+							fvs = append(fvs, v)
+						}
+					}
+				}
+				for _, fv := range fvs {
+					if own, ok2 := derefNamedOwner(fv, ed); ok2 && own && (fv.Name() == "Children" || fv.Name() == "Diagnostics") {
+						sites = append(sites, w.pos(st.Pos()))
+						viol = fmt.Sprintf("%s: %s overwrites an element of EntityDiagnostic.%s: a diagnostic (or a whole child entity with its errors) that was already recorded is replaced - e.g. a warning-only child attached later wipes the errors of the same receiver, and generation is no longer blocked", w.pos(st.Pos()), fnShort(f), fv.Name())
+					}
+				}
+			}
+			if fa, ok := st.Addr.(*ssa.FieldAddr); ok && ed != nil {
+				if fv := structFieldVar(fa.X.Type(), fa.Field); fv != nil && (fv.Name() == "Children" || fv.Name() == "Diagnostics") {
+					if own, ok2 := derefNamedOwner(fv, ed); ok2 && own {
+						n++
+						sites = append(sites, w.pos(st.Pos()))
+						// the value stored is an append to the same field, a fresh literal, or (AddDiagnostics on an empty entity) the given list
+						va := sliceOf(st.Val)
+						if !(va.Calls["builtin.append"] || len(va.Fields) == 0) {
+							viol = fmt.Sprintf("%s: %s assigns EntityDiagnostic.%s something other than itself extended", w.pos(st.Pos()), fnShort(f), fv.Name())
+						}
+					}
+				}
+			}
+		})
+	}
+	if n < 4 {
+		viol = fmt.Sprintf("only %d assignments of EntityDiagnostic.Children/Diagnostics found (floor 4)", n)
+	}
+	r.add(clause, "whowrites", "EntityDiagnostic:append-only", "recorded diagnostics and child entities are never replaced or dropped", []string{"core/validators/diagnostics.EntityDiagnostic"}, sites, viol)
 }
